@@ -371,12 +371,76 @@ def connect_harness(I: Interp) -> None:
     I.prove("C-default-port-6801", a[1].t == (uri.fields["port"].t if port_given else 6801))
 
 
+def demux_scripted_harness(which: str, k: int):
+    """Bounded companion of the demux units (labelled): a *scripted* history of k frames that
+    are not the awaited one (wrong control word) followed by the awaited frame; the loop is
+    executed as written (no invariant, no template), so it also decides loop bodies the loop
+    rules do not cover."""
+    def harness(I: Interp) -> None:
+        h = H()
+        te.install_io(I.ex)
+        conn = mk_conn(I)
+        prev = VBytes(b"\x10\x01")
+        state = {"i": 0}
+        frames: list[VTuple] = []
+        putlog: list[V] = []
+
+        def get_frame(I2: Interp, self_: V) -> V:
+            def go() -> V:
+                i = state["i"]
+                state["i"] += 1
+                if i > k:
+                    I2.fail("Q-wait-ends-on-the-awaited-frame(scripted)", "read past it")
+                    raise PyExc(VObj(asyncio.CancelledError, {"args": VTuple([])}))
+                good = DATA if which == "data" else ACK
+                other = ACK if which == "data" else DATA
+                hdr = I2.call(h.HSFZHeader, VInt(4), VInt(good if i == k else other))
+                if which == "data":
+                    req = I2.call(h.HSFZDiagReqHeader, conn.fields["dst_addr"],
+                                  conn.fields["src_addr"])
+                else:
+                    req = I2.call(h.HSFZDiagReqHeader, conn.fields["src_addr"],
+                                  conn.fields["dst_addr"])
+                f = VTuple([hdr, req, VBytes(b"\x10\x01") if i == k else VBytes(bytes([0x50, i]))])
+                frames.append(f)
+                return f
+            return coro(go)
+        I.ex.contracts[h.HSFZConnection.read_frame] = get_frame
+
+        def put(I2: Interp, recv: V, args: list[V], kwargs: dict[str, V]) -> V:
+            putlog.append(args[0])
+            return coro(lambda: NONE)
+        I.ex.stubs[("queue", "put")] = put
+        I.ex.stubs[("queue", "put_nowait")] = lambda I2, r, a, kw: (putlog.append(a[0]), NONE)[1]
+        fname = {"data": "read_diag_request", "ack": "_read_ack"}[which]
+        try:
+            r = I.await_v(I.call_v(I.getattr_v(conn, fname),
+                                   [prev] if which == "ack" else [], {}))
+        except PyExc as e:
+            I.fail("Q-demux-loop-does-not-raise-on-a-frame(scripted)", e.exc.cls.__name__)
+            return
+        I.prove(f"Q-wait-ends-only-on-the-awaited-frame(scripted,k={k})",
+                z3.BoolVal(state["i"] == k + 1))
+        same = len(putlog) == k and all(
+            isinstance(a, VTuple) and all(x is y for x, y in zip(a.items, b.items))
+            for a, b in zip(putlog, frames))
+        I.prove(f"Q-skipped-frames-are-requeued-once-each-in-arrival-order(scripted,k={k})",
+                z3.BoolVal(same), f"{len(putlog)} re-queued of {k}")
+        if which == "data":
+            I.prove(f"Q-returns-the-payload-of-the-awaited-data-frame(scripted,k={k})",
+                    z3.BoolVal(r is frames[k].items[2]))
+    return harness
+
+
 def build_units(tier: str) -> list[Unit]:
     return [Unit("codec/headers", codec_harness), Unit("framing/_read_frame", framing_harness),
             Unit("worker/_read_worker", worker_harness),
             Unit("control/_unpack_frame", unpack_harness),
             Unit("demux/data", demux_harness("data"), max_paths=20000),
             Unit("demux/ack", demux_harness("ack"), max_paths=20000),
+            *[Unit(f"demux-scripted/{w}/k={k}", demux_scripted_harness(w, k),
+                   bounded="scripted history of k <= 3 skipped frames")
+              for w in ("data", "ack") for k in range(0, 4)],
             Unit("write/write_diag_request", write_harness),
             Unit("connect/HSFZTransport.connect", connect_harness)]
 
@@ -388,6 +452,60 @@ def native_replay(unit: str, obligation: str, model: dict) -> tuple[bool, str]:
 
     def fr(cw: int, src: int, dst: int, data: bytes) -> bytes:
         return h.HSFZHeader(len(data) + 2, cw).pack() + bytes([src, dst]) + data
+
+    async def scripted() -> tuple[bool, str]:
+        # k data frames arrive before the ack: after the ack wait they are read back in order
+        for k in (1, 2, 3):
+            r = asyncio.StreamReader()
+            conn = h.HSFZConnection(r, FakeWriter(), 0xF4, 0x10, 0.05)  # type: ignore
+            ds = [bytes([0x50, i]) for i in range(k)]
+            r.feed_data(b"".join(fr(DATA, 0x10, 0xF4, d) for d in ds)
+                        + fr(ACK, 0xF4, 0x10, b"\x10\x01"))
+            await asyncio.sleep(0.01)
+            await asyncio.wait_for(conn._read_ack(b"\x10\x01"), 0.5)
+            got = []
+            for _ in range(k):
+                try:
+                    got.append(await asyncio.wait_for(conn.read_diag_request(), 0.1))
+                except TimeoutError:
+                    got.append(b"<missing>")
+            await conn.close()
+            if got != ds:
+                return True, (f"{k} data frames then the ack: reads deliver "
+                              f"{[g.hex() for g in got]}, sent {[d.hex() for d in ds]}")
+        return False, "skipped frames come back once each and in order for k=1..3"
+
+    async def segmentation() -> tuple[bool, str]:
+        stream = fr(DATA, 0x10, 0xF4, bytes.fromhex("62f190") + b"VIN-0123456789") + \
+            fr(DATA, 0x10, 0xF4, b"\x7f\x22\x78")
+
+        async def decode(cut: int | None) -> list[str]:
+            r = asyncio.StreamReader()
+            conn = h.HSFZConnection(r, FakeWriter(), 0xF4, 0x10, 0.05)  # type: ignore
+            if cut is None:
+                r.feed_data(stream)
+            else:
+                r.feed_data(stream[:cut])
+                await asyncio.sleep(0.002)
+                r.feed_data(stream[cut:])
+            out = []
+            for _ in range(2):
+                try:
+                    out.append((await asyncio.wait_for(conn.read_diag_request(), 0.2)).hex())
+                except Exception as e:  # noqa: BLE001
+                    out.append(type(e).__name__)
+            await conn.close()
+            return out
+        want = await decode(None)
+        for cut in range(1, len(stream)):
+            got = await decode(cut)
+            if got != want:
+                return True, f"two frames split after byte {cut}: {got}, unsegmented {want}"
+        return False, "all single splits decode like the unsegmented stream"
+    if unit.startswith("demux-scripted/"):
+        return asyncio.run(scripted())
+    if unit.startswith("framing/"):
+        return asyncio.run(segmentation())
 
     async def go() -> tuple[bool, str]:
         r = asyncio.StreamReader()
